@@ -68,7 +68,8 @@ def parse_file(path):
         s = ln.strip()
         if s.startswith('///') or s.startswith('#[doc') or s.startswith('//!'):
             in_doc = True
-            if re.search(r'#+\s*Panics', s):
+            # a `# Panics` heading; `# Panics during const evaluation` documents compile-time evaluation only
+            if re.search(r'#+\s*Panics\s*$', s):
                 doc_panics = True
             continue
         if s.startswith('#[') or s.startswith('#!['):
